@@ -372,7 +372,7 @@ def judge_and_report(chk: Check, cases: T.List[T.Dict[str, T.Any]], label: str, 
 # quick tier: every block kind once; (kind, variant) with variant None = seeded choice
 QUICK_PLAN = [[('hdr', 3), ('chain', None)], [('dep', None), ('script', 0), ('conf', 0)], [('gen', 1), ('ctlib', 0), ('pair', 0)],
               [('tool', None), ('run', 0), ('pair', 3)], [('link', None)], [('subproj', None), ('hdr', 4), ('pair', 2)],
-              [('unity', None)]]
+              [('unity', None), ('privhdr', 0)]]
 
 
 def make_jobs(chk: Check, quick: bool) -> T.List[T.Dict[str, T.Any]]:
@@ -418,7 +418,7 @@ def account(chk: Check, cases: T.List[T.Dict[str, T.Any]]) -> None:
 
 def main(chk: Check) -> None:
     quick = chk.tier == 'quick'
-    chk.rule = ('B: generated projects (1-3 feature blocks out of 13 kinds, or a projgen random project of 5-9 targets) configured '
+    chk.rule = ('B: generated projects (1-3 feature blocks out of 14 kinds, or a projgen random project of 5-9 targets) configured '
                 'by the real meson, every build statement executed under strace, 3 adversarial real schedules and one hermetic '
                 'replay per statement; TLC judges each record and explores every schedule of every recorded graph. '
                 'Non-trivial = a graph with >= 8 statements in which statements read >= 3 files generated by other statements '
